@@ -85,8 +85,8 @@ func init() {
 			broken("base/unixutil: scaled-ppm factor is not an integer: %s / %s", k1.ExactString(), k2.ExactString())
 			return out
 		}
-		out = append(out, "def scaledPPMFromFreqFactor : Int := "+i1.ExactString())
-		out = append(out, "def freqFromScaledPPMFactor : Int := "+i2.ExactString())
+		out = append(out, "def f64p_scaledPPMFromFreqFactor : Int := "+i1.ExactString())
+		out = append(out, "def f64p_freqFromScaledPPMFactor : Int := "+i2.ExactString())
 		return out
 	})
 	registerFact(func(repo string, parsed map[string][]*ast.File, fset *token.FileSet) {
